@@ -59,6 +59,13 @@ def seeded_entries(pid):
         if not name.startswith(pid + "-") or not os.path.exists(patch):
             continue
         kind = "neutral" if name.split("-")[1].startswith("N") else "mutant"
+        try:
+            with open(os.path.join(d, "meta.json")) as f:
+                meta = json.load(f)
+        except (OSError, ValueError):
+            meta = {}
+        if meta.get("static_reach") is False:
+            continue  # kept for the record: a breaking change no sound static rule decides (DESIGN.md 11.9)
         out.append({"id": "seed-" + name, "prop": pid, "rule": None, "kind": kind, "edits": [], "patch": patch})
     return out
 
